@@ -265,7 +265,7 @@ struct LoadWorld : World {
     const char *name() const override { return "load"; }
     std::vector<std::string> properties() const override { return { "C17", "C10" }; }
     std::string level(const std::string &) const override { return "fault_enumeration"; }
-    int64_t default_runs(const std::string &p, int tier) const override { return p == "C10" ? (tier ? 300000 : 5000) : (tier ? 30000 : 700); }
+    int64_t default_runs(const std::string &p, int tier) const override { return p == "C10" ? (tier ? 300000 : 5000) : (tier ? 30000 : 1000); }
     int watchdog_s(const std::string &p) const override { return p == "C10" ? 25 : 120; }
 
     // ---- enumeration (thorough tier walks it completely before seeded sampling starts)
@@ -363,6 +363,7 @@ struct LoadWorld : World {
             for (auto &f : MODEL_FILES)
                 vfs::preload(file_path(m, f));
         build_enumeration();
+        build_critical();
         // canary references, computed once per worker on undisturbed decoders
         for (const std::string m : { "en", "fr" }) {
             Json rec;
@@ -555,12 +556,39 @@ struct LoadWorld : World {
         return p;
     }
 
+    // quick tier: the single-field corruptions that sit right at a validation boundary (x-1, x+1, 0, -1) of the English
+    // model are enumerated too (a weakened bounds check is the most plausible regression); everything else is sampled
+    std::vector<Json> critical;
+    void build_critical()
+    {
+        if (!critical.empty())
+            return;
+        for (auto &file : MODEL_FILES) {
+            std::string b;
+            if (!vfs::pristine(file_path("en", file), b))
+                continue;
+            bool lda = file == "feature_transform";
+            for (int64_t off : locate_fields(file, b)) {
+                int32_t x = rd32(b, off);
+                for (int64_t v : { (int64_t)x - 1, (int64_t)x + 1, (int64_t)0, (int64_t)-1 })
+                    if ((int32_t)v != x)
+                        critical.push_back(plan_with("en", { fault("en", file, "set_i32", off, v) }, "init", lda));
+            }
+            int64_t n = (int64_t)b.size();
+            for (int64_t c : { (int64_t)0, (int64_t)1, (int64_t)2, (int64_t)3, n - 1, n - 2, n - 4, n - 5 })
+                if (c >= 0 && c < n)
+                    critical.push_back(plan_with("en", { fault("en", file, "truncate", c, 0) }, "init", lda));
+        }
+    }
+
     Json generate_indexed(const std::string &prop, uint64_t seed, int tier, int64_t index) override
     {
         if (prop == "C10")
             return generate_c10(seed);
         if (tier && index >= 0 && index < (int64_t)enumerated.size())
             return enumerated[(size_t)index];
+        if (!tier && index >= 0 && index < (int64_t)critical.size())
+            return critical[(size_t)index];
         Rng r(seed);
         std::string model = r.chance(0.6) ? "en" : "fr";
         int nf = (int)r.weighted({ 0, 70, 20, 10 });
